@@ -8,6 +8,10 @@ import (
 // A minimal bag-of-cells writer for harness-built cells (multi-root capable), written from the
 // boc format description; used to hand attacker-built containers to the library.
 
+// bocStoredHash, when set for a cell, makes bocSerialize write that cell "with hashes": descriptor bit 16 and a
+// stored (hash, depth) pair in front of its data - whatever the pair says.
+var bocStoredHash = map[*hcell][34]byte{}
+
 func bocSerialize(roots ...*hcell) []byte {
 	// topological order: a cell's references must come after it
 	var order []*hcell
@@ -40,7 +44,14 @@ func bocSerialize(roots ...*hcell) []byte {
 			d1 |= 8
 		}
 		d2 := byte(n/8 + (n+7)/8)
+		stored, withHashes := bocStoredHash[c]
+		if withHashes {
+			d1 |= 16
+		}
 		data = append(data, d1, d2)
+		if withHashes {
+			data = append(data, stored[:]...) // 32-byte hash, 2-byte depth (level 0: one of each)
+		}
 		buf := make([]byte, (n+7)/8)
 		for i, b := range c.bits {
 			if b {
@@ -189,19 +200,24 @@ func bocFillCell(b []byte, pick, how int) []byte {
 		return out
 	}
 	for i := 0; i < n; i++ {
-		switch how % 3 {
+		switch how % 4 {
 		case 0:
 			out[start+i] = 0xff
 		case 1:
 			out[start+i] = 0xff
 			if i == 0 {
-				out[start] = 0x7f
+				out[start] = 0x7f // hml_short whose unary length runs to the end of the cell
+			}
+		case 3:
+			out[start+i] = 0xff
+			if i == 0 {
+				out[start] = 0xef // hml_same$11 v=1 n=255 under a 256-bit key: a run of 255 one-bits
 			}
 		default:
 			out[start+i] = 0
 		}
 	}
-	if (how/3)%2 == 0 && d2&1 == 1 {
+	if (how/4)%2 == 0 && d2&1 == 1 {
 		out[o+1] = d2 + 1 // the same number of bytes, now all of them data: no completion tag
 	}
 	return out
